@@ -1,10 +1,10 @@
 (** Layout non-interference of the parser-engine interpreter, part 4: the theorem on token lists.
 
-    Two token lists are *aligned* by a list of blocks: a significant token (code or meta) kept as
-    it is, or a non-empty run of gap tokens (whitespace, newline, comment) replaced by another
-    non-empty run of gap tokens whose *last* token is whitespace/newline iff the original's last
-    token is (that is all the keyword-terminator guard of [greedy_match] can see of a gap).  Every
-    gap token must be invisible to the graph ([gap_ok_b]).  Then, for every graph that passes the
+    Two token lists are *aligned* by a list of blocks: a token kept as it is (any token; code and
+    meta tokens can only be kept), or a non-empty run of *free* gap tokens (whitespace, newline,
+    comment tokens that are invisible to the graph: [gap_ok_b]) replaced by another non-empty run of
+    free gap tokens whose *last* token is whitespace/newline iff the original's last token is (that
+    is all the keyword-terminator guard of [greedy_match] can see of a gap).  Then, for every graph that passes the
     decidable side condition [gap_safe_b], every fuel and regex oracles that agree on the kept
     tokens and never match a gap token, [parse_root] gives the same outcome on both lists and,
     on success, match results that agree node for node ([mr_sim]): same node kinds, same
@@ -27,7 +27,7 @@ Definition lright (bs : list blk) : list ptok := flat_map bright bs.
 
 Definition blk_ok (g : grammar) (b : blk) : Prop :=
   match b with
-  | BSig t => sigb t = true
+  | BSig t => True
   | BGap w x w' x' => Forall (okgap g) (w ++ [x]) /\ Forall (okgap g) (w' ++ [x']) /\ wsn g x = wsn g x'
   end.
 
@@ -155,7 +155,6 @@ Section Blocks.
       + apply (fs_sig _ _ _ _ _ _ t).
         * pose proof (tok_in_left b1 (BSig t) b2 0 E) as H. cbn in H. rewrite N.add_0_r in H. apply H. lia.
         * pose proof (tok_in_right b1 (BSig t) b2 0 E) as H. cbn in H. rewrite N.add_0_r in H. apply H. lia.
-        * exact Hb.
         * rewrite lleft_app, lright_app, !lenN_app in Hnext. exact Hnext.
       + destruct Hb as (H1 & H2 & H3).
         rewrite lleft_app, lright_app, !lenN_app in Hnext. cbn [lleft lright flat_map bleft bright] in Hnext.
@@ -187,7 +186,6 @@ Section Blocks.
           apply (tok_in_left b0 (BSig t) b2 0 E). cbn. lia.
         * replace (lenN (lright b0) + 1 - 1) with (lenN (lright b0) + N.of_nat 0) by lia.
           apply (tok_in_right b0 (BSig t) b2 0 E). cbn. lia.
-        * exact Hb.
         * replace (lenN (lleft b0) + 1 - 1) with (lenN (lleft b0)) by lia.
           replace (lenN (lright b0) + 1 - 1) with (lenN (lright b0)) by lia. exact Hprev.
       + destruct Hb as (H1 & H2 & H3). cbn [bleft bright].
@@ -213,21 +211,12 @@ Section Blocks.
 End Blocks.
 
 (* ------------------------------------------------------------------ the simulation theorem *)
-(** the regex oracles agree on kept tokens and never match a gap token *)
-Definition rx_compat (bs : list blk) (rx rx' : list (N * N)) : Prop :=
+(** the regex oracles agree on kept tokens and never match a free gap token *)
+Definition rx_compat (g : grammar) (bs : list blk) (rx rx' : list (N * N)) : Prop :=
   (forall rid p p' t, Rb bs p p' -> nth_error (lleft bs) (N.to_nat p) = Some t ->
-                      nth_error (lright bs) (N.to_nat p') = Some t -> sigb t = true ->
-                      rxhit rid p rx = rxhit rid p' rx')
-  /\ (forall rid p t, nth_error (lleft bs) (N.to_nat p) = Some t -> gapb t = true -> rxhit rid p rx = false)
-  /\ (forall rid p t, nth_error (lright bs) (N.to_nat p) = Some t -> gapb t = true -> rxhit rid p rx' = false).
-
-Lemma left_tokens g bs t : Forall (blk_ok g) bs -> In t (lleft bs) -> gapb t = true -> gap_ok_b g t = true.
-Proof.
-  intros Hok Hin Hg. unfold lleft in Hin. apply in_flat_map in Hin as (b & Hb & Ht).
-  rewrite Forall_forall in Hok. specialize (Hok _ Hb). destruct b as [t0|w x w' x']; cbn in Ht, Hok.
-  - destruct Ht as [->|[]]. unfold gapb in Hg. rewrite Hok in Hg. discriminate.
-  - destruct Hok as (H1 & _ & _). rewrite Forall_forall in H1. exact (proj2 (H1 _ Ht)).
-Qed.
+                      nth_error (lright bs) (N.to_nat p') = Some t -> rxhit rid p rx = rxhit rid p' rx')
+  /\ (forall rid p t, nth_error (lleft bs) (N.to_nat p) = Some t -> okgap g t -> rxhit rid p rx = false)
+  /\ (forall rid p t, nth_error (lright bs) (N.to_nat p) = Some t -> okgap g t -> rxhit rid p rx' = false).
 
 Section Main.
   Variable g : grammar.
@@ -236,25 +225,19 @@ Section Main.
   Variables rx rx' : list (N * N).
   Hypothesis Hstatic : static_ok_b g U = true.
   Hypothesis Hok : Forall (blk_ok g) bs.
-  Hypothesis Hrx : rx_compat bs rx rx'.
+  Hypothesis Hrx : rx_compat g bs rx rx'.
 
   Let toks := toks_of_list (lleft bs).
   Let toks' := toks_of_list (lright bs).
   Notation R := (Rb bs).
 
-  Lemma Hrx_sig : forall rid p p' t, R p p' -> get toks p = Some t -> get toks' p' = Some t -> sigb t = true ->
+  Lemma Hrx_sig : forall rid p p' t, R p p' -> get toks p = Some t -> get toks' p' = Some t ->
     rxhit rid p rx = rxhit rid p' rx'.
-  Proof. intros rid p p' t Hp E E'. unfold toks, toks' in *. rewrite get_toks_of_list in E, E'. apply (proj1 Hrx); assumption. Qed.
-  Lemma Hrx_gap : forall rid p t, get toks p = Some t -> gapb t = true -> rxhit rid p rx = false.
-  Proof. intros rid p t E. unfold toks in E. rewrite get_toks_of_list in E. apply (proj1 (proj2 Hrx)); assumption. Qed.
-  Lemma Hrx_gap' : forall rid p t, get toks' p = Some t -> gapb t = true -> rxhit rid p rx' = false.
-  Proof. intros rid p t E. unfold toks' in E. rewrite get_toks_of_list in E. apply (proj2 (proj2 Hrx)); assumption. Qed.
-  Lemma Hgap_left : forall i t, get toks i = Some t -> gapb t = true -> gap_ok_b g t = true.
-  Proof.
-    intros i t E. unfold toks in E. rewrite get_toks_of_list in E. apply nth_error_In in E.
-    eapply left_tokens; eassumption.
-  Qed.
-
+  Proof. intros rid p p' t Hp E E'. unfold toks, toks' in *. rewrite get_toks_of_list in E, E'. apply (proj1 Hrx _ _ _ t); assumption. Qed.
+  Lemma Hrx_gap : forall rid p t, get toks p = Some t -> okgap g t -> rxhit rid p rx = false.
+  Proof. intros rid p t E. unfold toks in E. rewrite get_toks_of_list in E. intro Hk. apply (proj1 (proj2 Hrx) _ _ t); assumption. Qed.
+  Lemma Hrx_gap' : forall rid p t, get toks' p = Some t -> okgap g t -> rxhit rid p rx' = false.
+  Proof. intros rid p t E. unfold toks' in E. rewrite get_toks_of_list in E. intro Hk. apply (proj2 (proj2 Hrx) _ _ t); assumption. Qed.
   Theorem match_node_layout_sim fuel : forall n p p' len len' terms,
     R p p' -> R len len' -> TA U terms ->
     res_sim (mr_sim R) (match_node g toks rx fuel n p len terms) (match_node g toks' rx' fuel n p' len' terms).
@@ -268,8 +251,7 @@ Section Main.
     - exact Hrx_gap.
     - exact Hrx_gap'.
     - intros. eapply match_node_anch; eassumption.
-    - intros. eapply match_node_onetok; try eassumption; [exact Hgap_left|].
-      intros. eapply Hrx_gap; eassumption.
+    - intros. eapply match_node_onetok; try eassumption. exact Hrx_gap.
   Qed.
 
   Theorem parse_root_layout_sim fuel s s' e e' : R s s' -> R e e' ->
@@ -442,7 +424,7 @@ Proof. intro H. split; [exact (cstart_sim g bs H)|exact (cend_sim g bs H)]. Qed.
     list without unparsable sections, it matches the code span of the second list, again without
     unparsable sections, and the two match trees have the same code view. *)
 Theorem pem_layout_invariant g bs rx rx' fuel m :
-  gap_safe_b g = true -> Forall (blk_ok g) bs -> rx_compat bs rx rx' ->
+  gap_safe_b g = true -> Forall (blk_ok g) bs -> rx_compat g bs rx rx' ->
   parse_root g (toks_of_list (lleft bs)) rx fuel (cstart (lleft bs)) (cend (lleft bs)) = ROk m ->
   clean_b g m = true ->
   exists m', parse_root g (toks_of_list (lright bs)) rx' fuel (cstart (lright bs)) (cend (lright bs)) = ROk m'
@@ -461,7 +443,7 @@ Qed.
 
 (** and whatever the outcome: the same class of result (parse error, the same abort, out of fuel) *)
 Theorem pem_layout_same_outcome g bs rx rx' fuel s s' e e' :
-  gap_safe_b g = true -> Forall (blk_ok g) bs -> rx_compat bs rx rx' -> Rb bs s s' -> Rb bs e e' ->
+  gap_safe_b g = true -> Forall (blk_ok g) bs -> rx_compat g bs rx rx' -> Rb bs s s' -> Rb bs e e' ->
   match parse_root g (toks_of_list (lleft bs)) rx fuel s e, parse_root g (toks_of_list (lright bs)) rx' fuel s' e' with
   | ROk m, ROk m' => clean_b g m' = clean_b g m /\ cview (lright bs) m' = cview (lleft bs) m
   | RErr, RErr => True
@@ -501,55 +483,57 @@ Proof.
   match goal with H : (_ =? _) = true |- _ => apply N.eqb_eq in H; subst end. reflexivity.
 Qed.
 
-(** the maximal run of gap tokens at the head *)
-Fixpoint span_gap (l : list ptok) : list ptok * list ptok :=
+(** the maximal run of free gap tokens at the head *)
+Definition freeb (g : grammar) (t : ptok) : bool := gapb t && gap_ok_b g t.
+Fixpoint span_free (g : grammar) (l : list ptok) : list ptok * list ptok :=
   match l with
-  | t :: r => if gapb t then let (w, r') := span_gap r in (t :: w, r') else ([], l)
+  | t :: r => if freeb g t then let (w, r') := span_free g r in (t :: w, r') else ([], l)
   | [] => ([], [])
   end.
-Lemma span_gap_app l : fst (span_gap l) ++ snd (span_gap l) = l.
+Lemma span_free_app g l : fst (span_free g l) ++ snd (span_free g l) = l.
 Proof.
-  induction l as [|t l IH]; [reflexivity|]. cbn. destruct (gapb t); [|reflexivity].
-  destruct (span_gap l) as [w r]. cbn in *. rewrite IH. reflexivity.
+  induction l as [|t l IH]; [reflexivity|]. cbn. destruct (freeb g t); [|reflexivity].
+  destruct (span_free g l) as [w r]. cbn in *. rewrite IH. reflexivity.
 Qed.
 
-(** blocks from the two lists: equal significant tokens pair up, maximal gap runs pair up *)
-Fixpoint blocks_of (fuel : nat) (l l' : list ptok) : option (list blk) :=
+(** blocks from the two lists: tokens that are not free must be equal and pair up, maximal runs of
+    free gap tokens pair up *)
+Fixpoint blocks_of (g : grammar) (fuel : nat) (l l' : list ptok) : option (list blk) :=
   match fuel with
   | O => None
   | S f =>
       match l, l' with
       | [], [] => Some []
       | t :: r, t' :: r' =>
-          if sigb t then
-            if ptok_eqb t t' then option_map (cons (BSig t)) (blocks_of f r r') else None
-          else if sigb t' then None
+          if negb (freeb g t) then
+            if ptok_eqb t t' then option_map (cons (BSig t)) (blocks_of g f r r') else None
+          else if negb (freeb g t') then None
           else
-            let (w, rest) := span_gap l in
-            let (w', rest') := span_gap l' in
+            let (w, rest) := span_free g l in
+            let (w', rest') := span_free g l' in
             match rev w, rev w' with
-            | x :: wr, x' :: wr' => option_map (cons (BGap (rev wr) x (rev wr') x')) (blocks_of f rest rest')
+            | x :: wr, x' :: wr' => option_map (cons (BGap (rev wr) x (rev wr') x')) (blocks_of g f rest rest')
             | _, _ => None
             end
       | _, _ => None
       end
   end.
 
-Lemma blocks_of_sound f : forall l l' bs, blocks_of f l l' = Some bs -> lleft bs = l /\ lright bs = l'.
+Lemma blocks_of_sound g f : forall l l' bs, blocks_of g f l l' = Some bs -> lleft bs = l /\ lright bs = l'.
 Proof.
   induction f as [|f IH]; intros l l' bs H; cbn [blocks_of] in H; [discriminate|].
   destruct l as [|t r], l' as [|t' r']; try discriminate.
   - inversion H; subst. split; reflexivity.
-  - destruct (sigb t).
+  - destruct (negb (freeb g t)).
     + destruct (ptok_eqb t t') eqn:E; [|discriminate]. apply ptok_eqb_eq in E. subst t'.
-      destruct (blocks_of f r r') as [bs0|] eqn:E0; [|discriminate]. inversion H; subst.
+      destruct (blocks_of g f r r') as [bs0|] eqn:E0; [|discriminate]. inversion H; subst.
       destruct (IH _ _ _ E0) as [<- <-]. split; reflexivity.
-    + destruct (sigb t'); [discriminate|].
-      pose proof (span_gap_app (t :: r)) as S1. pose proof (span_gap_app (t' :: r')) as S2.
-      destruct (span_gap (t :: r)) as [w rest]. destruct (span_gap (t' :: r')) as [w' rest'].
+    + destruct (negb (freeb g t')); [discriminate|].
+      pose proof (span_free_app g (t :: r)) as S1. pose proof (span_free_app g (t' :: r')) as S2.
+      destruct (span_free g (t :: r)) as [w rest]. destruct (span_free g (t' :: r')) as [w' rest'].
       cbn [fst snd] in S1, S2.
       destruct (rev w) as [|x wr] eqn:Ew; [discriminate|]. destruct (rev w') as [|x' wr'] eqn:Ew'; [discriminate|].
-      destruct (blocks_of f rest rest') as [bs0|] eqn:E0; [|discriminate]. inversion H; subst bs.
+      destruct (blocks_of g f rest rest') as [bs0|] eqn:E0; [|discriminate]. inversion H; subst bs.
       destruct (IH _ _ _ E0) as [H1 H2].
       assert (Hw : w = rev wr ++ [x]) by (rewrite <- (rev_involutive w), Ew; reflexivity).
       assert (Hw' : w' = rev wr' ++ [x']) by (rewrite <- (rev_involutive w'), Ew'; reflexivity).
@@ -559,7 +543,7 @@ Qed.
 
 Definition blk_ok_b (g : grammar) (b : blk) : bool :=
   match b with
-  | BSig t => sigb t
+  | BSig t => true
   | BGap w x w' x' =>
       forallb (fun t => gapb t && gap_ok_b g t) (w ++ [x]) && forallb (fun t => gapb t && gap_ok_b g t) (w' ++ [x'])
       && Bool.eqb (wsn g x) (wsn g x')
@@ -576,7 +560,7 @@ Qed.
 
 (** [l'] is a layout variant of [l] the graph [g] cannot tell apart *)
 Definition layout_blocks (g : grammar) (l l' : list ptok) : option (list blk) :=
-  match blocks_of (S (length l + length l')) l l' with
+  match blocks_of g (S (length l + length l')) l l' with
   | Some bs => if forallb (blk_ok_b g) bs then Some bs else None
   | None => None
   end.
@@ -585,9 +569,9 @@ Definition layout_related_b (g : grammar) (l l' : list ptok) : bool := is_some (
 Lemma layout_blocks_sound g l l' bs : layout_blocks g l l' = Some bs ->
   lleft bs = l /\ lright bs = l' /\ Forall (blk_ok g) bs.
 Proof.
-  unfold layout_blocks. destruct (blocks_of _ l l') as [bs0|] eqn:E; [|discriminate].
+  unfold layout_blocks. destruct (blocks_of g _ l l') as [bs0|] eqn:E; [|discriminate].
   destruct (forallb (blk_ok_b g) bs0) eqn:Ef; [|discriminate]. intro H. inversion H; subst bs0.
-  destruct (blocks_of_sound _ _ _ _ E) as [H1 H2]. split; [exact H1|]. split; [exact H2|].
+  destruct (blocks_of_sound _ _ _ _ _ E) as [H1 H2]. split; [exact H1|]. split; [exact H2|].
   rewrite forallb_forall in Ef. apply Forall_forall. intros b Hb. apply blk_ok_b_ok. apply Ef. exact Hb.
 Qed.
 
@@ -597,13 +581,13 @@ Qed.
 Definition rx_records (orx : N -> ptok -> bool) (l : list ptok) (rx : list (N * N)) : Prop :=
   forall rid i t, nth_error l (N.to_nat i) = Some t -> rxhit rid i rx = orx rid t.
 
-Lemma rx_compat_of_oracle orx bs rx rx' :
+Lemma rx_compat_of_oracle g orx bs rx rx' :
   rx_records orx (lleft bs) rx -> rx_records orx (lright bs) rx' ->
-  (forall rid t, gapb t = true -> In t (lleft bs) \/ In t (lright bs) -> orx rid t = false) ->
-  rx_compat bs rx rx'.
+  (forall rid t, okgap g t -> In t (lleft bs) \/ In t (lright bs) -> orx rid t = false) ->
+  rx_compat g bs rx rx'.
 Proof.
   intros H1 H2 Hg. split; [|split].
-  - intros rid p p' t _ E E' _. rewrite (H1 _ _ _ E), (H2 _ _ _ E'). reflexivity.
+  - intros rid p p' t _ E E'. rewrite (H1 _ _ _ E), (H2 _ _ _ E'). reflexivity.
   - intros rid p t E Hgap. rewrite (H1 _ _ _ E). apply Hg; [exact Hgap|left; eapply nth_error_In; exact E].
   - intros rid p t E Hgap. rewrite (H2 _ _ _ E). apply Hg; [exact Hgap|right; eapply nth_error_In; exact E].
 Qed.
@@ -612,7 +596,7 @@ Qed.
 Theorem pem_layout_invariant_lists g l l' orx rx rx' fuel m :
   gap_safe_b g = true -> layout_related_b g l l' = true ->
   rx_records orx l rx -> rx_records orx l' rx' ->
-  (forall rid t, gapb t = true -> In t l \/ In t l' -> orx rid t = false) ->
+  (forall rid t, okgap g t -> In t l \/ In t l' -> orx rid t = false) ->
   parse_root g (toks_of_list l) rx fuel (cstart l) (cend l) = ROk m -> clean_b g m = true ->
   exists m', parse_root g (toks_of_list l') rx' fuel (cstart l') (cend l') = ROk m'
              /\ clean_b g m' = true /\ cview l' m' = cview l m.
